@@ -83,7 +83,8 @@ def step_state(state, op):
         split = True
     elif op == "add_topnode":
         topnodes += 1
-        heads = False          # the old root carries no head flag: mark again before relying on it
+        # head marking leaves a head flag on the old root too, so every non-root node still
+        # carries one; the new root needs none (no transformation consults the root's flag)
         split = False
     elif op in ("binarize", "binarize_bare"):
         split = False          # fresh @ nodes carry no split flags
@@ -228,8 +229,11 @@ def judge_program(p, recs, st):
         fn, params = real_op(name)
         st.check("steps_judged")
         if "exc" in rec:
-            if fn == "binarize" and rec["exc"] == "ValueError":
-                st.probe("binarize_rejected_unmarked_node")
+            state_ = (False, False, False, False, 0)
+            for nm in p["ops"][:step]:
+                state_ = step_state(state_, nm)
+            if fn == "binarize" and rec["exc"] == "ValueError" and not state_[0]:
+                st.probe("binarize_rejected_unmarked_node")     # heads not known to be marked
                 return viols
             viols.append(cm.viol("C04/raised/%s/%s" % (fn, rec["exc"]), step=step,
                                  program=p["ops"][:step + 1], msg=rec.get("msg")))
